@@ -115,6 +115,7 @@ def h_binding(ctx, cfg):
         ctx.prove("C15:degree days are computed from that day's MaxTemp and MinTemp columns",
                   And(seen.get("gdd_tmax") == cells[("MaxTemp", d)], seen.get("gdd_tmin") == cells[("MinTemp", d)]) if isinstance(seen.get("gdd_tmax"), (SF, float, int, np.floating)) and isinstance(seen.get("gdd_tmin"), (SF, float, int, np.floating)) else False)
     ctx.reach("bound-by-name-and-date")
+    ctx.count_steps(len(probe_days))
 
 
 # ------------------------------------------------------------------------------------------------------------------ C14
@@ -179,6 +180,7 @@ def h_lookahead(ctx, cfg):
             m2.run_model(num_steps=harvest_row, initialize_model=False)
             return m2
         m0 = ctx.mark()
+        ctx.count_steps(n1 + harvest_row)
         try:
             m2 = run2()
             rows2 = _rows(m2, harvest_row)
@@ -224,6 +226,7 @@ def h_lookahead(ctx, cfg):
             m.run_model(till_termination=True, initialize_model=False)
         return m
     m0 = ctx.mark()
+    ctx.count_steps(upto if upto is not None else len(span))
     try:
         m = run()
         rows = _rows(m, upto)
